@@ -87,6 +87,32 @@ Theorem C11_abs_height_over_constrained cby cbh b content p :
 Proof. exact (abs_height_over_constrained cby cbh b content p). Qed.
 Print Assumptions C11_abs_height_over_constrained.
 
+(* min-height / max-height (CSS 2.1 10.7): absolute_height is wrapped by handle_min_max_height, which does
+   nothing while the height is still auto and otherwise amounts to one run of the rules with the clamp value as
+   the specified height *)
+Theorem C11_abs_height_min_max_reentry cby cbh minh maxh b :
+  let f := abs_height cby cbh in
+  match a_size (fst (f b)) with
+  | None => handle_min_max_h f minh maxh b = f b
+  | Some h1 =>
+      handle_min_max_h f minh maxh b =
+        (let over := match maxh with Some m => gtb h1 m | None => false end in
+         let h2 := if over then num0 maxh else h1 in
+         if gtb minh h2 then f (set_size b minh)
+         else if over then f (set_size b (num0 maxh)) else f b)
+  end.
+Proof. exact (abs_height_min_max_reentry cby cbh minh maxh b). Qed.
+Print Assumptions C11_abs_height_min_max_reentry.
+
+(* with a specified height the vertical constraint holds for the used, clamped height *)
+Theorem C11_abs_height_min_max_constraint cby cbh minh maxh b h content p :
+  a_size b = Some h ->
+  over_constrained b = false ->
+  placed_of b (handle_min_max_h (abs_height cby cbh) minh maxh b) content = Some p ->
+  constraint_spec cby cbh (set_size b (clamped_width h minh maxh)) p.
+Proof. exact (abs_height_min_max_constraint cby cbh minh maxh b h content p). Qed.
+Print Assumptions C11_abs_height_min_max_constraint.
+
 (* ------------------------------------------------------------------- absolutely positioned replaced boxes *)
 (* the literal equation of 10.3.8 / 10.6.5 on the used values the code stores, for ALL inputs *)
 Theorem C11_abs_replaced_equation hz ltr cb0 cbs b b' :
